@@ -88,7 +88,9 @@ def make_peer(c):
     if not any(x in gen.PROBE_KEX for x in k['kex']):
         k['kex'].append('curve25519-sha256')
     k['key'] = keys
-    return {'banner': 'SSH-2.0-OpenSSH_9.%d' % rng.randint(0, 9), 'kex': k, 'hostkeys': hk, 'gex': gex}
+    # every third peer sends SSH_MSG_DEBUG messages (allowed at any time) in front of its key-exchange replies and groups: the sizes behind them are covered by the policy all the same
+    chatter = [0, 2, 3, 5][(c.get('i', 0) // 3) % 4] if c.get('i', 0) % 3 == 1 else 0
+    return {'banner': 'SSH-2.0-OpenSSH_9.%d' % rng.randint(0, 9), 'kex': k, 'hostkeys': hk, 'gex': gex, 'reply_debug': chatter}
 
 
 def perturbations(script, rng, everything):
